@@ -6,6 +6,12 @@ func dispatch(cmd string, args []string) int {
 	switch cmd {
 	case "C01", "C02":
 		return cmdSlashing(cmd, args)
+	case "C05":
+		return cmdDomains(args)
+	case "C06":
+		return cmdFaults(args)
+	case "C09":
+		return cmdLive(args)
 	default:
 		fmt.Println("unknown command", cmd)
 		return 2
